@@ -60,10 +60,10 @@ class C18(ParserSessionProp):
     max_len = 6
     fault_classes = ('none', 'inband')
     rich_tokens = True
-    nbest_choices = (1, 1, 2, 3)
+    nbest_choices = (1, 2, 3, 4)
     rule = ('case = one history (length 1-12) of render(format, via to_string | via the encoder function) and '
             'set_language operations applied to the same result objects of an en or ja parse session (parses, n-best '
-            'lists, failure placeholders; annotator-style and bare tokens).  Reference model: the same call on a deep '
+            'lists as returned or re-ordered by the caller, failure placeholders; annotator-style and bare tokens).  Reference model: the same call on a deep '
             'copy of the pristine snapshot taken before the first operation.  Oracles after every operation, including '
             'operations that raise: snapshot of all shared objects unchanged (token keys, key order, values, tree fields, '
             'categories); output equals the reference output (same exception type if the reference raises).  Distinct = '
@@ -101,6 +101,9 @@ class C18(ParserSessionProp):
                 hist.append({'op': 'render', 'format': fmt, 'via': rng.choice(['to_string', 'to_string', 'encoder'])})
         spec['history'] = hist
         spec['start_lang'] = lang
+        # results as a user may hold them: n-best lists re-ranked / hand-assembled in another order
+        spec['assemble'] = rng.choice(['as_returned', 'as_returned', 'reversed', 'shuffled'])
+        spec['assemble_seed'] = rng.getrandbits(30)
         return spec
 
     def check_call(self, world, op, rec, stats, spec):
@@ -114,6 +117,17 @@ class C18(ParserSessionProp):
         stats = result['stats']
         if not results:
             return result
+        mode = spec.get('assemble', 'as_returned')
+        if mode != 'as_returned':
+            import random as _random
+            r = _random.Random(spec.get('assemble_seed', 0))
+            for resp in results:
+                if len(resp) > 1:
+                    if mode == 'reversed':
+                        resp.reverse()
+                    else:
+                        r.shuffle(resp)
+                    bump(stats, 'probe:nbest_list_reordered_by_caller')
         pristine = copy.deepcopy(results)
         snap0 = snapshot(results)
         lang = spec['start_lang']
